@@ -75,13 +75,13 @@ theorem wire_tag (tv : TV) (g : Int) (t : Tok) (rest : List Tok) (h : tv.flatten
 
 theorem untyped_unknown_tag (ts : Types) (a : Atlas) (trs : Trs) (it : IfaceTys) (fuel : Nat) (b : Body) (g : Int) (rest : List Tok)
     (h : a.getByTag g = none) :
-    unmWild ts a trs it (fuel + 1) ⟨b, some g⟩ rest = .err 0 := by
+    unmWild ts a trs it (fuel + 1) false ⟨b, some g⟩ rest = .err 0 := by
   sorry
 
 theorem untyped_known_tag (ts : Types) (a : Atlas) (trs : Trs) (it : IfaceTys) (fuel : Nat) (b : Body) (g : Int) (rest : List Tok)
     (e : Entry) (v : Val) (r : List Tok) (u : Nat) (h : a.getByTag g = some e)
     (hu : unmBare ts a trs it fuel e.ty (upickBare ts a e.ty) (zeroVal ts 64 e.ty) (⟨b, some g⟩ :: rest) = .ok v r u) :
-    unmWild ts a trs it (fuel + 1) ⟨b, some g⟩ rest = .ok (.iface (some (e.ty, v))) r u := by
+    unmWild ts a trs it (fuel + 1) false ⟨b, some g⟩ rest = .ok (.iface (some (e.ty, v))) r u := by
   sorry
 
 end Refmt.C20
